@@ -190,9 +190,10 @@ type Profile struct {
 	ATLifespan          int      `json:"at_lifespan,omitempty"` // seconds; 0 => 3600
 	RTLifespan          int      `json:"rt_lifespan,omitempty"` // seconds; 0 => 30 days; -1 unlimited
 	CodeLifespan        int      `json:"code_lifespan,omitempty"`
-	IDKey               string   `json:"id_key,omitempty"`  // key file for ID tokens / JWT ATs (default ec256a)
-	IDAlg               string   `json:"id_alg,omitempty"`  // when set the key is handed to fosite as a JWK with this algorithm
-	Session             string   `json:"session,omitempty"` // session implementation handed to the library: "" (harness Sess), openid, jwt, default
+	IDKey               string   `json:"id_key,omitempty"`         // key file for ID tokens / JWT ATs (default ec256a)
+	IDAlg               string   `json:"id_alg,omitempty"`         // when set the key is handed to fosite as a JWK with this algorithm
+	Session             string   `json:"session,omitempty"`        // session implementation handed to the library: "" (harness Sess), openid, jwt, default
+	DefaultConfig       bool     `json:"default_config,omitempty"` // leave every lazily defaulted Config field unset
 	Debug               bool     `json:"debug,omitempty"`
 	LegacyErrors        bool     `json:"legacy_errors,omitempty"`
 	JWTBearerSkipAuth   bool     `json:"jwt_bearer_skip_auth,omitempty"`
@@ -219,6 +220,7 @@ type World struct {
 	Secrets map[string]string // client id -> plaintext secret
 	IDKey   crypto.Signer
 	Dev     *rfc8628.DefaultDeviceStrategy
+	HMAC    *oauth2.HMACSHAStrategy
 }
 
 func (w *World) Now() time.Time          { return w.now }
@@ -233,7 +235,11 @@ var allGrants = []string{"authorization_code", "implicit", "refresh_token", "pas
 var allResponseTypes = []string{"code", "token", "id_token", "id_token token", "code id_token", "code token", "code id_token token"}
 
 func (w *World) hashSecret(s string) []byte {
-	h, err := w.Cfg.ClientSecretsHasher.Hash(context.Background(), []byte(s))
+	var hs fosite.Hasher = w.Cfg.ClientSecretsHasher
+	if hs == nil {
+		hs = &fosite.BCrypt{Config: &fosite.Config{HashCost: 4}}
+	}
+	h, err := hs.Hash(context.Background(), []byte(s))
 	if err != nil {
 		panic(err)
 	}
@@ -336,6 +342,13 @@ func NewWorld(p Profile) *World {
 	} else {
 		cfg.ClientSecretsHasher = PlainHasher{}
 	}
+	if p.DefaultConfig {
+		cfg.ScopeStrategy = nil
+		cfg.AudienceMatchingStrategy = nil
+		cfg.ClientSecretsHasher = nil
+		cfg.JWKSFetcherStrategy = nil
+		cfg.HashCost = 4
+	}
 	w.Cfg = cfg
 	w.Mem = storage.NewMemoryStore()
 	w.Store = NewProxyStore(w.Mem)
@@ -366,6 +379,7 @@ func NewWorld(p Profile) *World {
 	}
 	keyGetter := func(context.Context) (interface{}, error) { return signKey, nil }
 	hm := compose.NewOAuth2HMACStrategy(cfg)
+	w.HMAC = hm
 	var core interface{} = hm
 	strat := &compose.CommonStrategy{
 		CoreStrategy:               hm,
